@@ -55,7 +55,7 @@ def run_kernel(kernel, tr, key, u=None, noise_rng=None):
 
     tapes = {}
     if u is not None:
-        tapes["uniform"] = doubles.Tape(M.uniform, fn=lambda i, a, k: jnp.asarray(np.float32(u)), name="uniform")
+        tapes["uniform"] = doubles.Tape(M.uniform, fn=lambda i, a, k: jnp.asarray(np.float32(float(a[0]) + u * (float(a[1]) - float(a[0])) if len(a) >= 2 else u)), name="uniform")
     if noise_rng is not None:
         draws = []
 
